@@ -932,6 +932,13 @@ fn process_write_batch(
                             retry_entries.push(entry);
                         }
                     }
+                } else if entry.record.sector.load(Ordering::Acquire) == 0
+                    && !entry.record.successor_is_durable_or_deleted()
+                {
+                    // Superseded before it was written. Its replacement may not have been
+                    // buffered yet, so a flush returning now would acknowledge a state older
+                    // than this generation: keep the entry until a successor is durable.
+                    retry_entries.push(entry);
                 }
             }
             Operation::Delete => {
